@@ -345,6 +345,15 @@ def history(rng, version, length, profile):
                ["in", f"{m};255;4;0;0;{cfgp}"], ["in", f"{m};255;4;0;2;{blk(0)}"],
                ["fw", n, ft, fv, None], ["in", f"{n};255;4;0;0;{cfgp}"], ["in", f"{n};255;4;0;2;{blk(1)}"]]
         st = [s for s in st if rng.random() < 0.9]
+        if rng.random() < 0.5:
+            # the node restarts without ever asking for the firmware; the controller schedules the same update again
+            extra = [["fw", [n], ft, fv, img if rng.random() < 0.3 else None], ["in", f"{n};255;0;0;17;{version}"],
+                     ["fw", rng.choice([n, [n, m]]), ft, fv, None], ["in", f"{n};1;1;0;2;1"], ["in", f"{n};1;1;0;2;0"],
+                     ["in", f"{n};255;0;0;17;{version}"], ["in", f"{n};1;1;0;2;1"]]
+            pos = rng.choice([4, len(st)])
+            st[pos:pos] = extra if pos == len(st) else []
+            if pos != len(st):
+                st += extra
     while len(st) < length:
         k = rng.random()
         if k < profile.get("garbage", 0.15):
